@@ -360,7 +360,7 @@ def explore(tier, seed):
     sched_cov = []
     total_exec = 0
     for driver, gran, bound in plans:
-        r = c11a.explore_parallel(driver, gran, bound)
+        r = c11a.explore_cached(driver, gran, bound)
         total_exec += r["executions"]
         sched_cov.append({"driver": driver, "granularity": gran, "preemption_bound": bound, "executions": r["executions"], "distinct_outcomes": len(r["outcomes"]),
                           "scheduling_points_per_execution": r["points_max"], "max_tasks_in_flight": r["in_flight_max"], "pool_size_requested": r["requested_workers"],
